@@ -31,6 +31,7 @@ type FuncContract struct {
 	Ensures      []*Clause
 	Maintains    []*Clause
 	Asserts      map[int][]*Clause
+	Uses         []string // lemmas (proved separately) made available to this function's obligations
 	NamedAsserts map[string][]*Clause
 	Modifies     []string
 	Loops        map[int]*LoopSpec
@@ -60,10 +61,11 @@ type GhostDecl struct {
 }
 
 type Lemma struct {
-	Name string
-	Expr *SNode
-	Src  string
-	Pkg  string
+	Name   string
+	Expr   *SNode
+	Src    string
+	Pkg    string
+	Induct string // name of the (Int) binder the lemma is proved by induction on ("" = direct proof)
 }
 
 type NamedInv struct {
@@ -87,7 +89,7 @@ func NewContractSet() *ContractSet {
 	return &ContractSet{Funcs: map[string]*FuncContract{}, Specs: map[string]*SpecFn{}, Ghosts: map[string]*GhostDecl{}, Invs: map[string]*NamedInv{}, OpaqueSorts: map[string]bool{}}
 }
 
-var kwRe = regexp.MustCompile(`^(spec|axiom|ghost|inv|func|extern|requires|ensures|maintains|modifies|may_panic|deterministic|nooverflow|inline|mode|bytes|loop|assert|locals|lemma|trusted|pure|opaque|reveal|bounded|keyfns|keyfn|sort|replay|abstract)\b`)
+var kwRe = regexp.MustCompile(`^(spec|axiom|ghost|inv|func|extern|requires|ensures|maintains|modifies|may_panic|deterministic|nooverflow|inline|mode|bytes|loop|assert|locals|lemma|uses|trusted|pure|opaque|reveal|bounded|keyfns|keyfn|sort|replay|abstract)\b`)
 
 // logical lines: (keyword, rest, line number)
 type cline struct {
@@ -208,6 +210,15 @@ func (cs *ContractSet) LoadFile(path, pkgPath string) error {
 			} else {
 				cur.Ensures = append(cur.Ensures, c)
 			}
+		case "uses":
+			if cur == nil {
+				return fmt.Errorf("%s:%d: uses outside func", path, l.line)
+			}
+			for _, m := range strings.Split(l.rest, ",") {
+				if m = strings.TrimSpace(m); m != "" {
+					cur.Uses = append(cur.Uses, m)
+				}
+			}
 		case "modifies":
 			for _, m := range strings.Split(l.rest, ",") {
 				if m = strings.TrimSpace(m); m != "" {
@@ -304,7 +315,11 @@ func (cs *ContractSet) LoadFile(path, pkgPath string) error {
 			case "axiom":
 				cs.Axioms = append(cs.Axioms, c)
 			case "lemma":
-				cs.Lemmas = append(cs.Lemmas, &Lemma{Name: name, Expr: c.Expr, Src: c.Src, Pkg: pkgPath})
+				lm := &Lemma{Name: name, Expr: c.Expr, Src: c.Src, Pkg: pkgPath}
+				if f := strings.Fields(name); len(f) == 3 && f[1] == "induction" {
+					lm.Name, lm.Induct = f[0], f[2]
+				}
+				cs.Lemmas = append(cs.Lemmas, lm)
 			case "inv":
 				cs.Invs[name] = &NamedInv{Name: name, Expr: c.Expr, Pkg: pkgPath}
 			}
